@@ -476,11 +476,26 @@ static void __attribute__((noinline)) stack_fill(int byte)
     size_t i;
     for (i = 0; i < sizeof(area); i++) area[i] = (unsigned char) byte;
 }
-static void finvar_apply(int t, unsigned char *fin)
+/* returns the length of the Finished message to send (16 = header + 12 bytes of verify_data) */
+static int finvar_apply(int t, unsigned char *fin)
 {
     if (t == 1) memset(fin + 4, 0, 12);
     else if (t == 2) fin[15] ^= 0x01;
     else if (t == 3) memset(fin + 4, 0xff, 12);
+    else if (t >= 4 && t <= 6)
+    {
+        /* a SHORTER verify_data: empty, the first byte, the first half of the correct value (a comparison over the
+           bytes that were sent would accept all three) */
+        int n = t == 4 ? 0 : t == 5 ? 1 : 6;
+        fin[3] = (unsigned char) n;
+        return 4 + n;
+    }
+    else if (t == 7)
+    {
+        fin[3] = 13; fin[16] = 0;     /* one byte more than the correct value */
+        return 17;
+    }
+    return 16;
 }
 typedef struct {
     world_t w;
@@ -582,8 +597,8 @@ static void c_run_case(void *ctx, mx_result_t *r)
     c_ctx_t *g = ctx;
     const c_cfg_t *cc = &ccfgs[g->ci];
     tk_msg_t out[20];
-    unsigned char empty[4], rec[16500], fin[16], vd[12];
-    int no = 0, i, legal, complete, rl;
+    unsigned char empty[4], rec[16500], fin[20], vd[12];
+    int no = 0, i, legal, complete, rl, finlen = 16;
     buf_t tr;
     r->nontrivial = g->kind != C_NONE;
     for (i = 0; i <= g->nm; i++)
@@ -640,9 +655,9 @@ static void c_run_case(void *ctx, mx_result_t *r)
     memcpy(fin + 4, vd, 12);
     if (g->kind == C_FINVAR)
     {
-        finvar_apply(g->t, fin);
+        finlen = finvar_apply(g->t, fin);
     }
-    if (g->kind == C_FINVAR && g->i > 0)
+    if (g->kind == C_FINVAR && g->i > 0 && finlen == 16)
     {
         /* a handshake message may legally span records: the Finished in two records */
         rl = tk12_gcm_seal(g->wkey, 16, g->wsalt, 0, 22, fin, g->i, rec);
@@ -653,7 +668,7 @@ static void c_run_case(void *ctx, mx_result_t *r)
     }
     else
     {
-        rl = tk12_gcm_seal(g->wkey, 16, g->wsalt, 0, 22, fin, 16, rec);
+        rl = tk12_gcm_seal(g->wkey, 16, g->wsalt, 0, 22, fin, finlen, rec);
         if (rl > 0 && !(g->w.s[1].err_rc < 0 || g->w.s[1].ssl->err != SSL_ALERT_NONE))
         {
             world_feed(&g->w, 1, rec, rl);
@@ -743,9 +758,9 @@ static void d_run_case(void *ctx, mx_result_t *r)
     d_ctx_t *g = ctx;
     const c_cfg_t *cc = &ccfgs[g->ci];
     tk_msg_t out[20];
-    unsigned char empty[4], rec[16500], fin[16], vd[12];
+    unsigned char empty[4], rec[16500], fin[20], vd[12];
     static const unsigned char ccs[6] = { 20, 3, 3, 0, 1, 1 };
-    int no = 0, i, legal, complete, rl, answered = 0, k;
+    int no = 0, i, legal, complete, rl, answered = 0, k, finlen = 16;
     buf_t tr;
     wire_t *q;
     r->nontrivial = g->kind != C_NONE;
@@ -812,9 +827,9 @@ static void d_run_case(void *ctx, mx_result_t *r)
         memcpy(rsalt, g->w.s[0].ssl->sec.readIV, 4);
         if (g->kind == C_FINVAR)
         {
-            finvar_apply(g->t, fin);
+            finlen = finvar_apply(g->t, fin);
         }
-        if (g->kind == C_FINVAR && g->i > 0)
+        if (g->kind == C_FINVAR && g->i > 0 && finlen == 16)
         {
             rl = tk12_gcm_seal(rkey, 16, rsalt, 0, 22, fin, g->i, rec);
             if (rl > 0) world_feed(&g->w, 0, rec, rl);
@@ -824,7 +839,7 @@ static void d_run_case(void *ctx, mx_result_t *r)
         }
         else
         {
-            rl = tk12_gcm_seal(rkey, 16, rsalt, 0, 22, fin, 16, rec);
+            rl = tk12_gcm_seal(rkey, 16, rsalt, 0, 22, fin, finlen, rec);
             if (rl > 0)
             {
                 world_feed(&g->w, 0, rec, rl);
@@ -898,7 +913,7 @@ static void run_group(long gi, void *unused)
         DFORK(C_NONE, 0, 0);
         for (i = 0; i <= 15; i++)
         {
-            for (t = 0; t < 4; t++) DFORK(C_FINVAR, i, t);
+            for (t = 0; t < (i == 0 ? 8 : 4); t++) DFORK(C_FINVAR, i, t);
         }
         for (i = 0; i < g.nm; i++)
         {
@@ -945,7 +960,7 @@ static void run_group(long gi, void *unused)
         CFORK(C_CCS_FIRST, 0, 0);
         for (i = 0; i <= 15; i++)
         {
-            for (t = 0; t < 4; t++) CFORK(C_FINVAR, i, t);
+            for (t = 0; t < (i == 0 ? 8 : 4); t++) CFORK(C_FINVAR, i, t);
         }
         for (i = 0; i < g.nm; i++)
         {
